@@ -218,6 +218,30 @@ def max_abs_argument(e, x, names):
     return best[0]
 
 
+def min_abs_pow_base(e, x):
+    """Smallest |base| of a real power / sqrt node when the tree is evaluated at the real point x
+    (inf if there is none).  Bicomplex.__pow__ treats |base| < 1e-15 as a zero divisor."""
+    best = [math.inf]
+
+    def walk(t):
+        if t[0] in ('x', 'c'):
+            return
+        if t[0] == 'powr' or (t[0] == 'u' and t[1] == 'sqrt'):
+            sub = t[1] if t[0] == 'powr' else t[2]
+            try:
+                with np.errstate(all='ignore'):
+                    v = abs(complex(ev(sub, x, _np_unary)))
+                if v == v:
+                    best[0] = min(best[0], v)
+            except Exception:
+                pass
+        for sub in t[1:]:
+            if isinstance(sub, (list, tuple)):
+                walk(sub)
+    walk(e)
+    return best[0]
+
+
 def np_function(e):
     """The Python callable a user would write for this program (numpy ufuncs and operators)."""
     def f(x, *args, **kwds):
